@@ -31,6 +31,9 @@ theorem exIn_reject_eval : (shoot .repaired { exIn with forw := [2, 2, 2] }).toO
     { accept := false, status := .FTL, trial := [-1, 3, 2, 2, 2, 2], genSp := 2, genIdx := 2, genNb := 2,
       timeOrigin := 10, draws := [.integers 1 3, .random], usedB := 3, usedF := 4 } := by decide +kernel
 
+theorem exIn_allowmax_eval : (shoot .repaired { exIn with allowMax := true }).toOption.map (fun o => (o.status, o.draws))
+    = some (.ACC, [.integers 1 3]) := by decide +kernel
+
 theorem exIn_xi_pos : 0 < exIn.xi := by decide +kernel
 
 theorem exIn_shape : finalChecks exIn (fullTrial exIn.kick [3] (-1) [2] 5) = (true, .ACC) := by decide +kernel
